@@ -137,7 +137,7 @@ def main(argv=None):
         while plan:
             case, s = plan.pop(0)
             probe = bool(s.get("reexec_rate"))
-            o = run_case(case, s, P.compare, want=want, m1=(i % 7 == 0))
+            o = run_case(case, s, P.compare, want=want, m1=True)
             run_no += 1
             sim = o.get("sim")
             C["evaluations"] += 1
@@ -196,6 +196,14 @@ def main(argv=None):
                 plan.append((case, dict(sched, faults=[{"kind": kind, "step": k}])))
             elif run_no == 1 and want_probe:
                 plan.append((case, dict(sched, reexec_rate=0.3)))
+            if sim.mutations and not s.get("targeted") and o["status"] == "ok":
+                # M1 fired: a task changed one of its arguments.  Not a violation by itself; steer the
+                # search - the mutating tasks before, then after, every other consumer of that object
+                keys = sorted({m["key"] for m in sim.mutations})
+                for mode in ("first", "last"):
+                    plan.append((case, dict(s, policy="prefer", policy_arg={"keys": keys, "mode": mode},
+                                            targeted=True, faults=[], reexec_rate=0.0)))
+                reach["targeted_followups"] += 2
             if run_no == 1 and P.variants is not None:
                 for vn, vc in enumerate(P.variants(base_case, st)):
                     pol, arg = draw_policy(st["policy-variant%d" % vn])
